@@ -45,6 +45,9 @@ pub struct FileSpec {
     pub which: usize,
     pub size: usize,
     pub seed: u8,
+    /// the recognised path is a symbolic link to a regular file kept elsewhere in the payload directory
+    #[serde(default)]
+    pub symlink: bool,
 }
 #[derive(Serialize, Deserialize, Clone, Debug)]
 pub struct Req {
@@ -127,7 +130,16 @@ pub fn check_upload(t: &Table, c: &UploadCase) -> CheckResult {
         }
         std::fs::create_dir_all(p.parent().unwrap()).ok();
         let data = content(f.seed, f.size);
-        std::fs::write(&p, &data).map_err(|e| Violation::new("upload", "C11 kind=harness-io".to_string(), e.to_string(), input.clone()))?;
+        let _ = std::fs::remove_file(&p);
+        if f.symlink && f.which < 100 {
+            let store = dir.path().join("releases");
+            std::fs::create_dir_all(&store).ok();
+            let target = store.join(format!("blob-{}", f.which % 21));
+            std::fs::write(&target, &data).map_err(|e| Violation::new("upload", "C11 kind=harness-io".to_string(), e.to_string(), input.clone()))?;
+            std::os::unix::fs::symlink(&target, &p).map_err(|e| Violation::new("upload", "C11 kind=harness-io".to_string(), e.to_string(), input.clone()))?;
+        } else {
+            std::fs::write(&p, &data).map_err(|e| Violation::new("upload", "C11 kind=harness-io".to_string(), e.to_string(), input.clone()))?;
+        }
         if f.which < 100 {
             present.insert(RECOGNISED[f.which % 21].1, data);
         }
@@ -396,7 +408,7 @@ pub fn upload_case_strategy(max_size: usize) -> BoxedStrategy<UploadCase> {
         2 => 1u32..=600,
     ];
     let strat = block.prop_flat_map(move |block| {
-        let file = (prop_oneof![6 => 0usize..21, 1 => 100usize..105, 1 => 105usize..109], size_strategy(block, max_size), any::<u8>()).prop_map(|(which, size, seed)| FileSpec { which, size, seed });
+        let file = (prop_oneof![6 => 0usize..21, 1 => 100usize..105, 1 => 105usize..109], size_strategy(block, max_size), any::<u8>(), prop::bool::weighted(0.12)).prop_map(|(which, size, seed, symlink)| FileSpec { which, size, seed, symlink });
         let req = (
             prop_oneof![8 => proptest::sample::select(RECOGNISED.iter().map(|r| r.1).collect::<Vec<u8>>()), 1 => any::<u8>()],
             prop_oneof![
@@ -415,12 +427,38 @@ pub fn upload_case_strategy(max_size: usize) -> BoxedStrategy<UploadCase> {
             proptest::collection::vec(req, 0..30),
             prop_oneof![3 => Just("completion"), 1 => Just("abort")],
             prop_oneof![3 => Just(vec![]), 1 => Just(vec![1usize]), 1 => proptest::collection::vec(1usize..40, 1..5)],
+            // 0 = free script; otherwise the ordinary upload: every present file (in an order drawn here) fetched front to back
+            prop_oneof![2 => Just(0u16), 1 => 1u16..=u16::MAX],
         )
     });
     strat
-        .prop_map(|(files, block, password, reqs, ending, chunks)| {
+        .prop_map(|(files, block, password, reqs, ending, chunks, sequential)| {
             // requests: mostly aimed at files that exist, offsets relative to their sizes
             let present = present_of(&files);
+            if sequential != 0 && !present.is_empty() {
+                let mut order: Vec<(u8, usize)> = present.clone();
+                order.sort();
+                order.dedup_by_key(|p| p.0);
+                let rot = sequential as usize % order.len();
+                order.rotate_left(rot);
+                let mut requests = vec![];
+                'files: for (id, _) in &order {
+                    // the size on disk is that of the last spec for this id
+                    let size = present.iter().rev().find(|p| p.0 == *id).unwrap().1;
+                    let mut off = 0usize;
+                    loop {
+                        if requests.len() >= 48 {
+                            break 'files;
+                        }
+                        requests.push(Req { id: *id, offset: off as u32, malformed: String::new() });
+                        if off >= size {
+                            break;
+                        }
+                        off += block as usize;
+                    }
+                }
+                return UploadCase { files, block, password, requests, ending: ending.to_string(), chunks };
+            }
             let requests: Vec<Req> = reqs
                 .iter()
                 .map(|(id, off, mal, sel)| {
@@ -471,8 +509,17 @@ pub fn run(tier: Tier) -> i32 {
             if crosses_eof {
                 st.class("block-crosses-end-of-file");
             }
+            if c.requests.len() >= 3 && c.requests.windows(2).filter(|w| w[0].id == w[1].id && w[1].offset == w[0].offset.wrapping_add(c.block)).count() >= 2 {
+                st.class("front-to-back-run");
+                if c.requests.windows(2).any(|w| w[0].id == w[1].id && w[1].offset > 8192 && w[1].offset == w[0].offset.wrapping_add(c.block)) {
+                    st.class("front-to-back-run:beyond-8-KiB");
+                }
+            }
             if c.requests.iter().any(|r| present.iter().any(|(id, size)| *id == r.id && r.offset as usize >= *size)) {
                 st.class("offset-at-or-after-eof");
+            }
+            if files.iter().any(|f| f.symlink && f.which < 100) {
+                st.class("recognised-file-is-a-symbolic-link");
             }
             if files.iter().any(|f| f.which >= 105) {
                 st.class("stray-file-named-like-a-recognised-subdirectory");
@@ -490,7 +537,7 @@ pub fn run(tier: Tier) -> i32 {
     drop(quiet);
     ctx.finish(
         stats,
-        "proptest: payload directories (any subset of the 21 recognised paths + unrelated files, among them plain files named like recognised subdirectories; sizes 0, 1, block-1, block, block+1, k*block, random; pseudo-random content) x block sizes 1..32768 (biased to 1, 2, 127..129, 254..257, 1024, 32768) x passwords x request scripts of 0..30 requests (announced, unannounced and never-recognised ids; offsets 0, block multiples, size-1, size, size+1, random, > 2^31; repeated and overlapping; optionally lacking id / offset / file container / TLV) ending in completion or abort. Oracle (reference codec on the client's packets): announcement = exactly the recognised files present with true sizes and the password; each good request answered once with id, offset and file[offset..min(offset+block,size)] bit-identical; bad requests end the upload with one error and no data; completion/abort acknowledged, trailing bytes unread. non-trivial = >= 2 recognised files and a request with offset > 0 whose block crosses end of file; distinct by the whole case",
+        "proptest: payload directories (any subset of the 21 recognised paths + unrelated files, among them plain files named like recognised subdirectories; recognised files may be symbolic links to regular files; sizes 0, 1, block-1, block, block+1, k*block, random; pseudo-random content) x block sizes 1..32768 (biased to 1, 2, 127..129, 254..257, 1024, 32768) x passwords x request scripts (a third: the ordinary upload, every present file fetched front to back, up to 48 requests; otherwise 0..30 free requests: announced, unannounced and never-recognised ids; offsets 0, block multiples, size-1, size, size+1, random, > 2^31; repeated and overlapping; optionally lacking id / offset / file container / TLV) ending in completion or abort. Oracle (reference codec on the client's packets): announcement = exactly the recognised files present with true sizes and the password; each good request answered once with id, offset and file[offset..min(offset+block,size)] bit-identical; bad requests end the upload with one error and no data; completion/abort acknowledged, trailing bytes unread. non-trivial = >= 2 recognised files and a request with offset > 0 whose block crosses end of file; distinct by the whole case",
         &["files are created in a fresh temporary directory per case and removed afterwards; stdout of the code under test is redirected to /dev/null during the run", "my own copy of the 21-entry file-id table (RECOGNISED)"],
         false,
     )
